@@ -4,7 +4,7 @@ demo passes without the change; with it the pinned tests still pass and the demo
 Usage: confirm_seed.py <candidate_dir> <name> [--check PID ...]  -> copies to /verif/seeded/<name>/ when confirmed."""
 import json, os, shutil, subprocess, sys, tempfile
 
-cand, name = sys.argv[1], sys.argv[2]
+cand, name = os.path.abspath(sys.argv[1]), sys.argv[2]        # name "-": confirm only, copy nothing
 checks = sys.argv[4:] if len(sys.argv) > 3 and sys.argv[3] == "--check" else []
 wt = tempfile.mkdtemp(prefix="confirm_wt_", dir="/tmp")
 os.rmdir(wt)
@@ -24,7 +24,7 @@ finally:
 ok = res.get("demo_without") == 0 and res.get("apply") == 0 and "272 passed" in res.get("tests", "") and res.get("demo_with", 0) != 0
 res["confirmed"] = ok
 print(json.dumps(res))
-if ok:
+if ok and name != "-" and os.path.abspath(cand) != os.path.join("/verif/seeded", name):
     dst = os.path.join("/verif/seeded", name)
     os.makedirs(dst, exist_ok=True)
     for f in ("patch.diff", "demo.py"):
